@@ -142,6 +142,25 @@ def run (t : Tier) : Emit Unit := do
       for avail in [0:declared] do
         let whole := packFields [(0xf, 4), (2 + declared, 12)] ++ [d.tag, declared] ++ content.take avail
         emit "C14" (parseCase whole none "framing-truncated")
+  -- (3c) every known tag with short bodies over a small alphabet (inner lengths 0, 1, 2, 5 and 0xff, flags all clear or
+  --      all set), the buffer ending with the descriptor or 1..3 bytes short of what its length announces
+  for tg in knownDescriptorTags do
+    for _ in [0:(if t.quick then 40 else 200)] do
+      let n ← liftGen (randRange 0 11)
+      let body ← liftGen (genList n (pick [0, 0, 1, 2, 5, 0xff, 0x10, 0x65]))
+      let short ← liftGen (pick [0, 0, 1, 2, 3])
+      let whole := packFields [(0xf, 4), (2 + n, 12)] ++ [tg, n] ++ body.take (n - short)
+      emit "C14" (parseCase whole none "small-alphabet-bodies")
+  -- (3d) the same, systematically, for the kinds with inner length bytes: p bytes of plausible fixed fields, two
+  --      small length bytes, k zero bytes, end of buffer
+  for tg in [0x4e, 0x4d, 0x48, 0x50, 0x56, 0x59, 0x58, 0x55, 0x0a, 0x45, 0x7f, 0x6a, 0x7a] do
+    for p in [0:6] do
+      for a in [0, 1, 2, 5] do
+        for b in [0, 1, 2, 5] do
+          for k in [0:4] do
+            let body : Bytes := ([0x10, 0x65, 0x6e, 0x67, 0x01] : Bytes).take p ++ [a, b] ++ List.replicate k 0
+            let whole := packFields [(0xf, 4), (2 + body.length, 12)] ++ [tg, body.length] ++ body
+            emit "C14" (parseCase whole none "inner-lengths-x-short")
   -- (4) malformed: mutations, truncations at every offset, random bytes (model only)
   for _ in [0:300 * t.scale] do
     let ds ← liftGen (genDescriptors 80)
